@@ -527,4 +527,24 @@ Definition final_ok (n : nat) (r0 : bool) (cps : list (nat * bool)) (resume : bo
   && forallb (fun p => fobs_ok (lookup N N (list N) (list N) (fst p) d) (snd p)) obs
   && toks_eqb (itrace (fst r) d) observed
   && out_ok n (snd r) outcome_obs.
+(* the same with the outcome of the uninterrupted run supplied (evaluated once per configuration) *)
+Definition reference_outcome (n : nat) : outcome N N := snd (irun false n []).
+
+Definition out_ok_with (ref : outcome N N) (o : outcome N N) (observed : option (nat * bool)) : bool :=
+  match o, observed with
+  | Stuck, None => true
+  | Ok st, Some (ns, same) =>
+      Nat.eqb (length (snd st)) ns
+      && Bool.eqb same (match ref with Ok rst => st_eqb st rst | Stuck => false end)
+  | _, _ => false
+  end.
+
+Definition final_ok_with (ref : outcome N N) (n : nat) (r0 : bool) (cps : list (nat * bool)) (resume : bool)
+           (obs : list (fname * fobs)) (observed : list tok) (outcome_obs : option (nat * bool)) : bool :=
+  let d := after n r0 cps in
+  let r := irun resume n d in
+  Nat.eqb (length d) (length obs)
+  && forallb (fun p => fobs_ok (lookup N N (list N) (list N) (fst p) d) (snd p)) obs
+  && toks_eqb (itrace (fst r) d) observed
+  && out_ok_with ref (snd r) outcome_obs.
 End Instance.
